@@ -7,6 +7,7 @@ import QF.Core.Eval
     func (e colExpr | constExpr | unaryExpr | colConstExpr | colColExpr | exprExpr1 | exprExpr2 | errorExpr)
          execute(qf QFrame, ctx *eval.Context) (QFrame, types.ColumnName)
     func (qf QFrame) Eval(dstCol string, expr Expression, ff ...eval.ConfigFunc) QFrame
+    func missingCol(expr Expression, qf QFrame) (types.ColumnName, bool)
 
 go/cmd/extract/evalast.go executes the body of every `execute` method and of `Eval` symbolically and writes what remains to
 `QF/Gen/EvalFns.lean` on every run: a decision tree `EP` whose conditions `EC` are the run-time tests (`qf.Err != nil`,
@@ -15,7 +16,10 @@ go/cmd/extract/evalast.go executes the body of every `execute` method and of `Ev
 `newUnaryExpr(…)` are executed on their statically typed arguments — or of a sub-expression field through the
 interface), and whose leaves are the values returned. Package functions without a loop (`getFunc`, the constructors) are
 inlined. The function with the search loop (`tempColName`) is translated separately to `ETmp`; a call of it is the term
-`ET.temp`. Frames are immutable values in this code, so every call on a frame is a pure term `ET`:
+`ET.temp`. The recursive function over the expression tree that `Eval` calls first (`missingCol`: a type switch over the
+expression structs, column fields collected per struct, `Expression` fields recursed into, a final loop with
+`qf.Contains`) is translated separately to `EMiss`; a call of it is the pair `ET.missCol` / `EC.missing`.
+Frames are immutable values in this code, so every call on a frame is a pure term `ET`:
 
     f.withErr(e)   f.Apply(Instruction{Fn, DstCol, SrcCol1, SrcCol2})   f.Drop(names…)   f.Copy(dst, src)
     f.Contains(n)  f.functionType(n)  ctx.GetFunc(typ, argCount, name)  tempColName(f, prefix)
@@ -78,6 +82,9 @@ inductive ET where
   | copy (f dst src : ET)
   /-- a call of the function translated to `ETmp` (`tempColName(f, pre)`) -/
   | temp (f pre : ET)
+  /-- the first result of a call of the function translated to `EMiss` (`missingCol(e, f)`): the column found missing, `""` if
+  none -/
+  | missCol (e f : ET)
   /-- a call of `qerrors.New` / `Errorf`: an error built here, never nil -/
   | newErr
   /-- `qerrors.Propagate(_, e)` -/
@@ -100,6 +107,9 @@ inductive EC where
   | gotFn (ar : Arity) (f n op : ET)
   /-- `f.Contains(n)` -/
   | contains (f n : ET)
+  /-- the second result of a call of the function translated to `EMiss` (`missingCol(e, f)`): some column reference of `e` is
+  not a column of `f` -/
+  | missing (e f : ET)
   /-- a bool field -/
   | flag (b : ET)
   /-- `a == b` on strings -/
@@ -141,10 +151,36 @@ inductive ETmp where
   | opaque (txt : String)
   deriving DecidableEq, Repr, Inhabited
 
+/-- One clause of the type switch of the missing-column function, for the struct type of a role. -/
+inductive EMClause where
+  /-- `cols = []types.ColumnName{e.f₁, …}` (the fields by role: `srcF i`), then on to the final loop -/
+  | cols (fields : List Nat)
+  /-- `if c, m := F(e.s₁, qf); m { return c, true }; …; return F(e.sₙ, qf)`: the `Expression` fields (`subF i`) in the order
+  they are searched -/
+  | recur (subs : List Nat)
+  | opaque (txt : String)
+  deriving DecidableEq, Repr, Inhabited
+
+/-- The missing-column function. -/
+inductive EMiss where
+  /-- `var cols []types.ColumnName; switch e := expr.(type) { <clauses> }` (a struct type without a clause leaves `cols` nil)
+  `; for _, col := range cols { if !qf.Contains(string(col)) { return col, true } }; return "", false` -/
+  | scan (clauses : List (Role × EMClause))
+  | opaque (txt : String)
+  deriving DecidableEq, Repr, Inhabited
+
+def EMClause.hasOpaque : EMClause → Bool
+  | .opaque _ => true
+  | _ => false
+
+def EMiss.hasOpaque : EMiss → Bool
+  | .opaque _ => true
+  | .scan cl => cl.any (·.2.hasOpaque)
+
 def ET.hasOpaque : ET → Bool
   | .opaque _ => true
   | .errOf f | .drop0 f | .propagate f | .orNull f | .mkCol f | .mkConst f => f.hasOpaque
-  | .withErr a b | .drop1 a b | .temp a b | .fnTypeErr a b | .mkUnary a b => a.hasOpaque || b.hasOpaque
+  | .withErr a b | .drop1 a b | .temp a b | .fnTypeErr a b | .mkUnary a b | .missCol a b => a.hasOpaque || b.hasOpaque
   | .drop2 a b c | .copy a b c | .getFn _ a b c | .mkColCol a b c => a.hasOpaque || b.hasOpaque || c.hasOpaque
   | .apply a b c d e => a.hasOpaque || b.hasOpaque || c.hasOpaque || d.hasOpaque || e.hasOpaque
   | _ => false
@@ -153,7 +189,7 @@ def EC.hasOpaque : EC → Bool
   | .opaque _ => true
   | .notNil e | .flag e | .isConstKind e => e.hasOpaque
   | .gotFn _ a b c => a.hasOpaque || b.hasOpaque || c.hasOpaque
-  | .contains a b | .strEq a b => a.hasOpaque || b.hasOpaque
+  | .contains a b | .strEq a b | .missing a b => a.hasOpaque || b.hasOpaque
   | .not c => c.hasOpaque
   | .and a b | .or a b => a.hasOpaque || b.hasOpaque
   | _ => false
@@ -225,6 +261,9 @@ structure Env where
   exec : Node → Frame → Option Res
   /-- `execute` of the receiver's `Expression` fields -/
   subs : List (Frame → Option Res)
+  /-- the missing-column function on the receiver's `Expression` fields (`Eval`: on the parameter): `some none` = nothing
+  missing, `some (some c)` = the column `c` -/
+  miss : List (Frame → Option (Option String)) := []
 
 /-- `Apply` of ONE instruction. The mirror's three forms are chosen by the kind of `Fn` (the Go code chooses by the
 emptiness of `SrcCol1` / `SrcCol2`; a constant with a source column, or a one-argument function with two, ends in the
@@ -294,6 +333,10 @@ def ET.eval (Γ : Env) (outs : List Res) : ET → Option V
     match f.eval Γ outs, p.eval Γ outs with
     | some (.frame g), some (.str p) => some (.str (Γ.temp g p))
     | _, _ => none
+  | .missCol e f =>
+    match e.eval Γ outs, f.eval Γ outs with
+    | some (.sub i), some (.frame g) => ((Γ.miss[i]?).bind (· g)).map fun o => .str (o.getD "")
+    | _, _ => none
   | .newErr => some (.err (some .other))
   | .propagate e => match e.eval Γ outs with | some (.err x) => some (.err x) | _ => none
   | .fnTypeErr f n =>
@@ -342,6 +385,10 @@ def EC.eval (Γ : Env) (outs : List Res) : EC → Option Bool
   | .contains f n =>
     match f.eval Γ outs, n.eval Γ outs with
     | some (.frame g), some (.str n) => some (Fr.contains g n)
+    | _, _ => none
+  | .missing e f =>
+    match e.eval Γ outs, f.eval Γ outs with
+    | some (.sub i), some (.frame g) => ((Γ.miss[i]?).bind (· g)).map (·.isSome)
     | _, _ => none
   | .flag b => match b.eval Γ outs with | some (.bool x) => some x | _ => none
   | .strEq a b =>
@@ -412,6 +459,59 @@ def ETmp.run : ETmp → Frame → String → Option String
 /-- the mirror's convention (QF/Core/Eval.lean `tempColName`): where the Go function panics the mirror answers "PANIC" -/
 def ETmp.name (t : ETmp) (f : Frame) (pre : String) : String := (t.run f pre).getD "PANIC"
 
+/-! ## The missing-column function -/
+
+/-- the i-th `types.ColumnName` field of a struct value (as `ET.srcF`) -/
+def Node.srcField : Node → Nat → Option String
+  | .col n, 0 | .unary _ n, 0 | .colConst _ n _ _, 0 | .colCol _ n _, 0 | .colCol _ _ n, 1 => some n
+  | _, _ => none
+
+/-- how many `Expression` fields a struct value has (as `ET.subF`) -/
+def Node.subCount : Node → Nat
+  | .ex1 _ _ => 1
+  | .ex2 _ _ _ => 2
+  | _ => 0
+
+/-- the final loop: the first of the collected names that is not a column -/
+def firstNotIn (f : Frame) (names : List String) : Option String := names.find? fun n => !Fr.contains f n
+
+/-- `if c, m := F(s₁); m { return c, true }; …; return F(sₙ)` on the results of the calls (made in this order, as far as
+needed); no call at all has no meaning -/
+def firstFound : List (Option (Option String)) → Option (Option String)
+  | [] => none
+  | [r] => r
+  | r :: rest =>
+    match r with
+    | none => none
+    | some (some c) => some (some c)
+    | some none => firstFound rest
+
+/-- one call of the function on the struct value `node`, the calls on its `Expression` fields given -/
+def EMiss.step (cl : List (Role × EMClause)) (node : Node) (subs : List (Frame → Option (Option String))) (f : Frame) :
+    Option (Option String) :=
+  match cl.lookup node.role with
+  | none => some none
+  | some (.cols fs) => (fs.mapM node.srcField).map (firstNotIn f)
+  | some (.recur is) =>
+    if is.all (· < node.subCount) then firstFound (is.map fun i => (subs[i]?).bind (· f)) else none
+  | some (.opaque _) => none
+
+/-- the function on an expression tree -/
+def EMiss.scanRun (cl : List (Role × EMClause)) : Node → Frame → Option (Option String)
+  | .ex1 op e, f => EMiss.step cl (.ex1 op e) [scanRun cl e] f
+  | .ex2 op l r, f => EMiss.step cl (.ex2 op l r) [scanRun cl l, scanRun cl r] f
+  | .col n, f => EMiss.step cl (.col n) [] f
+  | .const v, f => EMiss.step cl (.const v) [] f
+  | .unary op s, f => EMiss.step cl (.unary op s) [] f
+  | .colConst op s v cf, f => EMiss.step cl (.colConst op s v cf) [] f
+  | .colCol op a b, f => EMiss.step cl (.colCol op a b) [] f
+  | .error, f => EMiss.step cl .error [] f
+
+/-- `none`: no meaning; `some none`: `("", false)`; `some (some c)`: `(c, true)` -/
+def EMiss.run : EMiss → Node → Frame → Option (Option String)
+  | .scan cl, n, f => EMiss.scanRun cl n f
+  | .opaque _, _, _ => none
+
 /-! ## Calls -/
 
 abbrev Progs := List (FnId × EP)
@@ -442,13 +542,13 @@ def interp (pr : Prims) (P : Progs) (tmp : Frame → String → String) (ctx : C
   | .colCol op a b => callAt pr P tmp ctx [] depth (.colCol op a b)
   | .error => callAt pr P tmp ctx [] depth .error
 
-/-- `f.Eval(dst, e)` with the context `ctx` (`eval.NewConfig(ff).Ctx`) -/
-def interpEval (pr : Prims) (P : Progs) (tmp : Frame → String → String) (ctx : Ctx) (f : Frame) (dst : String)
-    (e : Node) : Option Frame :=
+/-- `f.Eval(dst, e)` with the context `ctx` (`eval.NewConfig(ff).Ctx`); `miss`: the meaning of the missing-column function -/
+def interpEval (pr : Prims) (P : Progs) (tmp : Frame → String → String) (miss : Node → Frame → Option (Option String))
+    (ctx : Ctx) (f : Frame) (dst : String) (e : Node) : Option Frame :=
   match P.lookup .eval with
   | some p =>
     (p.run { prims := pr, ctx := ctx, temp := tmp, recv := .error, qf := f, dst := dst,
-             exec := callAt pr P tmp ctx [] depth, subs := [interp pr P tmp ctx e] } []).map (·.1)
+             exec := callAt pr P tmp ctx [] depth, subs := [interp pr P tmp ctx e], miss := [miss e] } []).map (·.1)
   | none => none
 
 end QF.EV
